@@ -64,6 +64,8 @@ def endict(v):
 def yaql(e):
     if "lit" in e:
         return _lit_y(undict(e["lit"]))
+    if "ctxkey" in e:
+        return "ctx(%s).%s" % (e["ctxkey"], e["k"])
     if "ctx" in e:
         return "ctx(%s)" % e["ctx"]
     if "fn" in e:
@@ -81,6 +83,8 @@ def yaql(e):
 def jinja(e):
     if "lit" in e:
         return _lit_j(undict(e["lit"]))
+    if "ctxkey" in e:
+        return "ctx('%s').%s" % (e["ctxkey"], e["k"])
     if "ctx" in e:
         return "ctx('%s')" % e["ctx"]
     if "fn" in e:
